@@ -88,6 +88,11 @@ func (t *brokerPublishTransactionBase) resend(pktx interface{}) error {
 	t.log.Debug("Resend.")
 	switch pkt := pktx.(type) {
 	case snPkts.Packet:
+		// A packet for a sleeping client is already waiting in the sleep
+		// buffer: queueing the retransmission too would deliver it twice.
+		if t.handler.state.Get() == util.StateAsleep {
+			return nil
+		}
 		// Set DUP if applicable.
 		if dupPkt, ok := pkt.(snPkts.PacketWithDUP); ok {
 			dupPkt.SetDUP(true)
